@@ -62,7 +62,7 @@ def read_docstring(prop="C03"):
         e = E(v)
         k = z3.Length(v.docstring)
         return z3.And(v.docstring == DOCS(R0(e), k, mark(e)), ALLDOC(R0(e), k, mark(e)), stream(v) == z3.SubSeq(R0(e), k, z3.Length(R0(e)) - k),
-                      v.docmark == mark(e), v.length == z3.Length(mark(e)), z3.Select(v._e.field_array(v._p, "stream"), v.source) == z3.Select(e._e.field_array(e._p, "stream"), e.source))
+                      v.docmark == mark(e), z3.Select(v._e.field_array(v._p, "stream"), v.source) == z3.Select(e._e.field_array(e._p, "stream"), e.source))
     c.loop(0, invariants=[("collected_is_marker_stripped_prefix", inv)], unfold=lambda v: unfold(R0(E(v)), z3.Length(v.docstring), mark(E(v))),
            variant=lambda v: z3.Length(stream(v)))
     c.post_facts = lambda v0: [DOCS(R0(v0), 0, mark(v0)) == z3.Empty(SI), ALLDOC(R0(v0), 0, mark(v0))]
